@@ -29,6 +29,8 @@ def run(ctx):
         for r in rs:
             ctx.cov["states"] += r.distinct
             ctx.cov["transitions"] += r.generated
+        if quick and name == "ws":
+            thin(cases, 3)
         out = os.path.join(ctx.work, "sw_%s.ndjson" % name)
         s = run_json([vh, "c12-emit", "--cases", cases, "--out", out], timeout=6000)
         os.remove(cases)
@@ -44,7 +46,7 @@ def run(ctx):
     # split big batches for parallel TLC
     parts = []
     for b in batches:
-        lines = open(b).read().splitlines()
+        lines = nl_lines(b)
         os.remove(b)
         step = 4000
         for i in range(0, len(lines), step):
@@ -78,7 +80,7 @@ def run(ctx):
     ctx.cov["distinct_nontrivial"] = nontriv
     ctx.cov["sweeps"] = tot
     ctx.cov["engines"].append({"name": "Trace_CallLimit", "role": "Sound/Monotone of CallLimit.tla on every recorded sweep"})
-    ctx.assumptions += ["the limit is a process global: sweeps run single-threaded",
+    ctx.assumptions += ["quick tier: every 3rd grammar of the ws slice; thorough: all", "the limit is a process global: sweeps run single-threaded",
                         "parses that panic with the documented empty-stack POP/PEEK message or need more than 120 counted calls are not swept",
                         "VM back-end only in this round (the counter lives in the shared ParserState)"]
 
